@@ -8,6 +8,7 @@ mod core;
 mod e2e;
 mod gen;
 mod known;
+mod memcheck;
 mod miri;
 mod mon;
 mod oracle;
